@@ -516,13 +516,19 @@ fn eval_dependencies(
     let mut not_evaluated = Vec::new();
     let mut used_ids = BTreeSet::new();
     loop {
+        #[cfg(feature = "verif-hooks")]
+        crate::verif::emit("deps.pass", bucket.len() as u64, 0);
         while let Some((id, f)) = bucket.pop() {
             match f.evaluate(state) {
                 Ok((value, mut used)) => {
+                    #[cfg(feature = "verif-hooks")]
+                    crate::verif::emit("deps.visit", *id, 1);
                     state.entries.insert(*id, value);
                     used_ids.append(&mut used);
                 }
                 Err(_) => {
+                    #[cfg(feature = "verif-hooks")]
+                    crate::verif::emit("deps.visit", *id, 0);
                     not_evaluated.push((id, f));
                 }
             }
